@@ -1,6 +1,6 @@
 """C07 -- channel data arrives complete, in order, once, with EOF last."""
 
-from . import chanload
+from . import chanload, c07_tuntap
 
 ID = 'C07'
 NAME = 'channel_data'
@@ -32,17 +32,30 @@ STUB = ['event loop + clock', 'TCP sockets/listener', 'DNS', 'executor',
         'OS randomness (DRBG)']
 PROBES = ['reader_paused', 'short_reads', 'text_split_char', 'window_small',
           'multi_channel', 'stderr_data', 'eof_sent', 'closed_behind_eof',
-          'stream_cut_in_character']
+          'stream_cut_in_character', 'pop_tuntap',
+          'tunnel_packets_delivered']
 
 
 def gen_plan(rng):
+    if rng.chance(12):
+        # a second population: layer 2/3 tunnel channels, whose unit of
+        # transfer is a packet (checks/c07_tuntap.py)
+        return c07_tuntap.gen_plan(rng)
+
     return chanload.gen_plan(rng)
 
 
-valid_plan = chanload.valid_plan
+def valid_plan(plan):
+    if plan.get('pop') == 'tuntap':
+        return c07_tuntap.valid_plan(plan)
+
+    return chanload.valid_plan(plan)
 
 
 def run_plan(plan, sched_seed=None, sched_replay=None):
+    if plan.get('pop') == 'tuntap':
+        return c07_tuntap.run_plan(plan, sched_seed, sched_replay)
+
     def between(world, run):
         if world.sim.loop.capped:
             return
